@@ -392,6 +392,20 @@ theorem stabilizer_to_graph_complete (t : STab) (hn : 0 < t.n) (hg : t.Good) (ad
   have hs : SpanEq t (graphSTab t.n adj) := ⟨rfl, fun p => (hstate p).1, fun p => (hstate p).2⟩
   ⟨stabilizerToGraph_gauge t hn hg adj hsym hirr hs, stateToGraph_gauge t hn hg adj hsym hirr hs⟩
 
+/-- **`stabilizer_to_graph(validate=True)` returns exactly on the graph states** (every n ≥ 1, real commuting generators): it returns a
+    graph iff the input generates the signed group of `|G⟩` for some simple graph `G` — and then it returns that `G` -/
+theorem stabilizer_to_graph_returns_iff_graph_state (t : STab) (hn : 0 < t.n) (hg : t.Good) :
+    (∃ g, S2G.stabilizerToGraph t = .ok g) ↔
+    ∃ adj : Adj, (∀ i j, i < t.n → j < t.n → adj i j = adj j i) ∧ (∀ i, i < t.n → adj i i = false) ∧
+      ∀ p, t.Spn p ↔ (graphSTab t.n adj).Spn p := by
+  constructor
+  · rintro ⟨g, h⟩
+    obtain ⟨h1, h2, h3⟩ := stabilizer_to_graph_sound t hg.real g h
+    exact ⟨g.f, h2, h3, h1⟩
+  · rintro ⟨adj, h1, h2, h3⟩
+    obtain ⟨⟨g, hgr, _⟩, _⟩ := stabilizer_to_graph_complete t hn hg adj h1 h2 h3
+    exact ⟨g, hgr⟩
+
 /-- non-vacuity of `stabilizer_to_graph_complete`: the graph state of the edge `0 – 1` in the generating set `⟨Y₀Y₁, Z₀X₁⟩`
     (`Y₀Y₁ = X₀Z₁ · Z₀X₁`), which is not the graph gauge -/
 def edgeYY : STab :=
